@@ -8,6 +8,7 @@
    correspondence and the direct oracle exercise them on the real library. *)
 From Coq Require Import ZArith.
 From BS Require Import Model.Base Model.Num Model.Arith Model.ExprParser Model.Script Model.Interp Model.LibCore Model.LibAll Model.LibPartial Model.Run Proofs.C09 Proofs.LibAll Proofs.LibPartial Proofs.C09term Proofs.C09termLib.
+From BS Require Import Proofs.C09termFull Proofs.C09termG Proofs.C09termFullG Proofs.C09termClosure.
 Local Open Scope Z_scope.
 
 (* EXACT (1): the limit is tested at the head of every statement, after counting it: with L statements started, statement
@@ -185,6 +186,148 @@ Theorem C09_termination_premises_hold_for_a_library_with_callbacks : forall cfg,
   lib_terminates (libcb cfg) /\ lib_ranked (libcb cfg) rank_cb.
 Proof. intros cfg. split; [exact (libcb_terminates cfg)|exact (libcb_ranked cfg)]. Qed.
 Print Assumptions C09_termination_premises_hold_for_a_library_with_callbacks.
+
+(* ======================= the library the checks run (Model/LibPartial.v libfull2) and the termination premises =======================
+   libfull2 = LibCore + arraySort (calls its comparator back) + the lifted functions + systemPartial closures (calling one is one raw
+   call of the bound function).
+   (1) lib_terminates holds for it, with no restriction (Proofs/C09termFull.v). *)
+Theorem C09_lib_terminates_holds_for_combined_library : forall cfg, lib_terminates (libfull2 cfg) /\ lib_terminates (libfull cfg).
+Proof. intros cfg. split; [exact (libfull2_terminates cfg)|exact (libfull_terminates cfg)]. Qed.
+Print Assumptions C09_lib_terminates_holds_for_combined_library.
+
+(* (2) lib_ranked FAILS for it, whatever the ranks: arraySort's answer depends on what its callback does at arraySort *)
+Theorem C09_lib_ranked_fails_for_combined_library : forall cfg rank,
+  ~ lib_ranked (libfull2 cfg) rank /\ ~ lib_ranked (libfull cfg) rank.
+Proof. intros cfg rank. split; [exact (libfull2_not_ranked cfg rank)|exact (libfull_not_ranked cfg rank)]. Qed.
+Print Assumptions C09_lib_ranked_fails_for_combined_library.
+
+(* (3) THE CLAUSE under a weaker premise (Proofs/C09termG.v).  Instead of a rank per NAME: a measure [mu] of the library CALL (name,
+   arguments, world at the call) and a predicate [Post] every answer of a library function satisfies; a library call must terminate
+   as soon as its callbacks terminate on non-library values and on library calls of SMALLER measure (answering within Post). *)
+Theorem C09_lib_wf_spelled : forall lib mu Post,
+  (lib_post lib Post <-> forall (cb : caller) name args w, Post name (wrap (lib cb name args w))) /\
+  (lib_wf lib mu Post <->
+   forall (J : Type) (c : Z) (cb : J -> nat -> caller) name args w, c <= w_count w ->
+     (forall fv a' w', c <= w_count w' -> (forall nm, fv <> VFun (FLib nm)) ->
+        exists r, (exists f0 : nat, forall j f, (f0 <= f)%nat -> cb j f fv a' w' = r) /\ w_count w' <= w_count (snd r)) ->
+     (forall nm a' w', c <= w_count w' -> (mu nm a' w' < mu name args w)%nat ->
+        exists r, (exists f0 : nat, forall j f, (f0 <= f)%nat -> cb j f (VFun (FLib nm)) a' w' = r) /\ w_count w' <= w_count (snd r) /\ Post nm r) ->
+     exists r, (exists f0 : nat, forall j f, (f0 <= f)%nat -> lib (cb j f) name args w = r) /\ w_count w <= w_count (snd r)).
+Proof. intros lib mu Post. split; split; intros H; exact H. Qed.
+Print Assumptions C09_lib_wf_spelled.
+
+Theorem C09_terminates_measured_partial : forall cfg lib url_rel lint_lines mu Post,
+  0 < c_max cfg -> lib_post lib Post -> lib_wf lib mu Post ->
+  forall sc w, exists fuel r, forall bot fuel', (fuel <= fuel')%nat ->
+    execute_script_bot cfg lib url_rel lint_lines bot fuel' sc w = r.
+Proof. exact terminatesG. Qed.
+Print Assumptions C09_terminates_measured_partial.
+
+Theorem C09_every_call_terminates_measured_partial : forall cfg lib url_rel lint_lines mu Post,
+  0 < c_max cfg -> lib_post lib Post -> lib_wf lib mu Post ->
+  forall fv a um w, exists fuel r, forall bot fuel', (fuel <= fuel')%nat ->
+    callB cfg lib url_rel lint_lines bot fuel' fv a um w = r.
+Proof. exact call_terminates_botG. Qed.
+Print Assumptions C09_every_call_terminates_measured_partial.
+
+(* it IS weaker: the two premises of C09_terminates_partial imply it (mu = the rank of the name, Post = True) *)
+Theorem C09_ranked_premises_imply_measured : forall lib rank, lib_terminates lib -> lib_ranked lib rank ->
+  lib_post lib (fun _ _ => True) /\ lib_wf lib (fun nm _ _ => rank nm) (fun _ _ => True).
+Proof. exact lib_wf_of_ranked. Qed.
+Print Assumptions C09_ranked_premises_imply_measured.
+
+(* (4) libfull - everything of libfull2 but the closures - meets the weaker premise in EVERY world, arraySort handed arraySort (or any
+   other function value) included: a sort whose comparator is arraySort makes ONE comparator call (the answer is an array, `array < 0`
+   raises), and a list is empty while it is sorted, so each level of a nest takes one list of >= 2 elements out of the heap
+   (Proofs/C09termFullG.v mu_sort, post_sort) *)
+Theorem C09_combined_library_without_closures_meets_the_weaker_premise : forall cfg,
+  lib_post (libfull cfg) post_sort /\ lib_wf (libfull cfg) mu_sort post_sort.
+Proof. intros cfg. split; [exact (libfull_post cfg)|exact (libfull_wf cfg)]. Qed.
+Print Assumptions C09_combined_library_without_closures_meets_the_weaker_premise.
+
+(* ... so with libfull THE CLAUSE holds with no premise on the library left (cfg' = the library's own options record) *)
+Theorem C09_terminates_combined_library_without_closures : forall cfg cfg' url_rel lint_lines,
+  0 < c_max cfg ->
+  forall sc w, exists fuel r, forall bot fuel', (fuel <= fuel')%nat ->
+    execute_script_bot cfg (libfull cfg') url_rel lint_lines bot fuel' sc w = r.
+Proof. exact libfull_run_terminates. Qed.
+Print Assumptions C09_terminates_combined_library_without_closures.
+
+(* (5) closures: over ARBITRARY worlds the clause is FALSE for libfull2.  In the world whose hidden array 0 holds its own closure
+   (p = FLib [0; 0], heap [[p]], global p), `return p()` answers the depth-0 answer of the tower at every fuel.  No run from an empty
+   heap builds that world (a closure's hidden array is allocated before the closure value exists and no script value refers to it),
+   but the theorem quantifies over worlds; so for libfull2 the clause needs that invariant of reachable states, and no measure makes
+   lib_wf true of libfull2 as it stands.  NOT PROVED: the clause for libfull2 from initial worlds without closure values. *)
+Theorem C09_closures_forged_world_refutes_the_clause :
+  let cfg := mkcfg 10 false true in
+  let p := VFun (FLib [0%N; 0%N]) in
+  let w := upd_arrs (upd_globals (world0 []) [(U "p", p)]) [[p]] in
+  ~ exists fuel r, forall bot fuel', (fuel <= fuel')%nat ->
+      execute_script_bot cfg (libfull2 cfg) no_url no_lint bot fuel' [SReturn (Some (ECall (U "p") []))] w = r.
+Proof. exact libfull2_forged_world_never_terminates. Qed.
+Print Assumptions C09_closures_forged_world_refutes_the_clause.
+
+Theorem C09_no_measure_for_closures_over_all_worlds : forall mu Post,
+  ~ (lib_post (libfull2 (mkcfg 10 false true)) Post /\ lib_wf (libfull2 (mkcfg 10 false true)) mu Post).
+Proof. exact libfull2_not_wf. Qed.
+Print Assumptions C09_no_measure_for_closures_over_all_worlds.
+
+(* (6) what the missing invariant buys (Proofs/C09termClosure.v).  [closure_ok w l]: the hidden array l has a head and at least one
+   bound argument, and a head that is itself a closure has a SMALLER location - the shape systemPartial gives it.  [libfull2g] is
+   libfull2 with that shape as a guard: calling a closure whose hidden array fails it is declined (LOracle).  Where the guard holds
+   the two libraries are the same function; for libfull2g THE CLAUSE holds in every world with no premise on the library.  That the
+   guard holds at every closure call of a run of libfull2 from a world without closure values is the invariant that is NOT proved. *)
+Theorem C09_guarded_library_is_the_combined_library_where_the_guard_holds : forall cfg cb name args w,
+  (forall l, partial_loc name = Some l -> closure_ok w l = true) -> libfull2g cfg cb name args w = libfull2 cfg cb name args w.
+Proof. exact libfull2g_same. Qed.
+Print Assumptions C09_guarded_library_is_the_combined_library_where_the_guard_holds.
+
+Theorem C09_terminates_combined_library_with_guarded_closures : forall cfg cfg' url_rel lint_lines,
+  0 < c_max cfg ->
+  forall sc w, exists fuel r, forall bot fuel', (fuel <= fuel')%nat ->
+    execute_script_bot cfg (libfull2g cfg') url_rel lint_lines bot fuel' sc w = r.
+Proof. exact libfull2g_run_terminates. Qed.
+Print Assumptions C09_terminates_combined_library_with_guarded_closures.
+
+(* the hidden array systemPartial allocates passes the guard, provided a bound function that is a closure is one that exists already *)
+Theorem C09_fresh_closure_passes_the_guard : forall args w v w1 l,
+  lib_partial_new args w = (LVal v, w1) -> v = VFun (FLib (partial_name l)) ->
+  (forall nm l', nth_error args 0 = Some (VFun (FLib nm)) -> partial_loc nm = Some l' -> (l' < length (w_arrs w))%nat) ->
+  closure_ok w1 l = true.
+Proof. exact partial_new_guard. Qed.
+Print Assumptions C09_fresh_closure_passes_the_guard.
+
+(* closures at work under maxStatements = 20: a closure of a closure over arraySort, called with a script comparator that logs
+     function cmp(a, b): systemLog('c'); return b - a endfunction
+     a = arrayNew(1, 2, 3)   p = systemPartial(arraySort, a)   q = systemPartial(systemPartial, p)   r = q(cmp)   r()   return arrayGet(a, 0)
+   -> 3, logged twice, 11 statements; the guarded and the unguarded library agree, for every fuel >= 30 and every tower *)
+Example C09_example_closures : forall bot fuel,
+  let cfg := mkcfg 20 false true in
+  let prog := [ SFunction (U "cmp") (Some [U "a"; U "b"]) false false
+                  [SExpr None (ECall (U "systemLog") [EStr (U "c")]); SReturn (Some (EBin (U "-") (EVar (U "b")) (EVar (U "a"))))];
+                SExpr (Some (U "a")) (ECall (U "arrayNew") [ENum (NInt 1); ENum (NInt 2); ENum (NInt 3)]);
+                SExpr (Some (U "p")) (ECall (U "systemPartial") [EVar (U "arraySort"); EVar (U "a")]);
+                SExpr (Some (U "q")) (ECall (U "systemPartial") [EVar (U "systemPartial"); EVar (U "p")]);
+                SExpr (Some (U "r")) (ECall (U "q") [EVar (U "cmp")]);
+                SExpr None (ECall (U "r") []);
+                SReturn (Some (ECall (U "arrayGet") [EVar (U "a"); ENum (NInt 0)])) ] in
+  let r1 := execute_script_bot cfg (libfull2g cfg) no_url no_lint bot (30 + fuel) prog (world0 []) in
+  let r2 := execute_script_bot cfg (libfull2 cfg) no_url no_lint bot (30 + fuel) prog (world0 []) in
+  r1 = r2 /\ fst r1 = OVal (VNum (NInt 3)) /\ w_log (snd r1) = [U "c"; U "c"] /\ w_count (snd r1) = 11.
+Proof. intros bot fuel. vm_compute. repeat split. Qed.
+
+(* the nest at work (maxStatements = 10, libfull2):  b = arrayNew(3, 1, 2)   a = arrayNew(arraySort, b)   return arraySort(a, arraySort)
+   -> the outer sort's first comparison is arraySort(b, arraySort), whose first comparison arraySort(1, 3) fails on its arguments; the
+   failure passes through both sorts to the call handler: null, 3 statements, both lists as they were (the implementation: the same) *)
+Example C09_example_sort_handed_sort : forall bot fuel,
+  let cfg := mkcfg 10 false true in
+  let r := execute_script_bot cfg (libfull2 cfg) no_url no_lint bot (20 + fuel)
+             [ SExpr (Some (U "b")) (ECall (U "arrayNew") [ENum (NInt 3); ENum (NInt 1); ENum (NInt 2)]);
+               SExpr (Some (U "a")) (ECall (U "arrayNew") [EVar (U "arraySort"); EVar (U "b")]);
+               SReturn (Some (ECall (U "arraySort") [EVar (U "a"); EVar (U "arraySort")])) ] (world0 []) in
+  fst r = OVal VNull /\ w_count (snd r) = 3 /\
+  w_arrs (snd r) = [[VNum (NInt 3); VNum (NInt 1); VNum (NInt 2)]; [VFun (FLib (U "arraySort")); VArr 0]].
+Proof. exact nest_example. Qed.
 
 (* under maxStatements = 10, with `__each` bound in the globals:
      function g(x): systemLog('g') endfunction   return __each(arrayNew(1, 2), g)   -> logs g, g; 4 statements
